@@ -4,7 +4,7 @@
  On success writes /verif/seeded/<Cxx>-<X>/{patch.diff,demo.py,meta.json}. Scratch worktree removed at the end."""
 import json, os, re, subprocess, sys, shutil, time
 pid, x = sys.argv[1], sys.argv[2]
-src = f"/tmp/wt/{pid}.out" if x in ("A", "B") else f"/tmp/wt2/{pid}.out"      # second batch of sub-agents: variants C, D
+src = {"A": "/tmp/wt", "B": "/tmp/wt", "C": "/tmp/wt2", "D": "/tmp/wt2"}.get(x, "/tmp/wt3") + f"/{pid}.out"      # second batch of sub-agents: variants C, D
 patch, demo, meta = f"{src}/{x}.patch.diff", f"{src}/{x}.demo.py", f"{src}/{x}.meta.md"
 wt = f"/tmp/seedwt/{pid}-{x}"
 os.makedirs("/tmp/seedwt", exist_ok=True)
